@@ -246,12 +246,23 @@ example :
        ((run c (Refine.progOf cp) 50).2.pp == 6) && (report (locTable 0 cp.code) 6 == (⟨1, 2⟩ : Loc))
      | .error _ => false) = true := by decide
 
-/-- the sharper statement at full strength: the reported location is that of the *innermost failing node* —
-    a sub-node `m` whose own evaluation by the language definition fails with the same error class.
-    Proved below (`runtime_error_innermost_partial`) under the hypotheses of C01's refinement theorem, without
+/-- **the property at full strength: errors are located at the offending occurrence.**  When a run of a compiled
+    program fails with class `e`, the location it reports is THE location the language definition gives the
+    failure: the instrumented reference evaluator `Spec.runLoc` (`Spec/EvalLoc.lean`: `Spec.eval` whose failures
+    carry the location of the node that raises them) fails on the whole tree with `(e, that location)`.
+    Proved below (`runtime_error_location_exact_partial`) under the hypotheses of C01's refinement theorem, without
     which the run of a compiled program is not tied to the language definition at all (a tree with a pair
     node outside a map literal, `+0.0` and `-0.0` constants sharing a pool slot, a collection of 2^63 elements). -/
-def runtime_error_innermost_goal : Prop :=
+def runtime_error_location_exact_goal : Prop :=
+  ∀ (cfg : CompCfg) (n : Node) (cp : Compiled) (c : Cfg), compileProgram cfg n = .ok cp → cfg.cast = none →
+    Refine.FitsU16 cp.code →
+    ∀ (fuel : Nat) (e : ErrClass) (s' : VM), run c (Refine.progOf cp) fuel = (.error e, s') → e ≠ .fuel →
+      (Spec.runLoc (Refine.specOf c) cfg.cast n).1 = .error (e, report (locTable 0 cp.code) s'.pp)
+
+/-- the weaker reading kept for reference (it does NOT say "innermost": every ancestor of the failing node also
+    fails with `e` in some context, so the statement alone would be satisfied by a VM that always reported the
+    root): the reported location is the location of *some* node whose own evaluation can fail with `e`. -/
+def runtime_error_blames_failing_node_goal : Prop :=
   ∀ (cfg : CompCfg) (n : Node) (cp : Compiled) (c : Cfg), compileProgram cfg n = .ok cp → cfg.cast = none →
     Refine.FitsU16 cp.code →
     ∀ (fuel : Nat) (e : ErrClass) (s' : VM), run c (Refine.progOf cp) fuel = (.error e, s') → e ≠ .fuel →
@@ -259,26 +270,18 @@ def runtime_error_innermost_goal : Prop :=
         ∃ ctx σ, (Spec.eval (Refine.specOf c) ctx m σ).1 = .error e
 
 open ExprModel.Refine in
-/-- **`runtime_error_innermost_partial`: the reported location is the location of the innermost failing node.**
-    Whenever a run of a compiled program fails with class `e` (anything but the model's `fuel`), the location the
-    VM reports — `Locations[pp]` of the failing step — is the location of a node `m` of the tree whose *own*
-    evaluation by the language definition (`Spec.eval`, in the closure context and state it is reached in) fails
-    with `e`.  This is C01's simulation with its failure direction carrying the blame: the failing instruction
-    is always one that `m` emitted for itself, under `m`'s location, at a moment when `m`'s operands have been
-    evaluated and `m`'s own operation fails (`ReachErr`, `BlameOK`).  It holds for every construct, the slice
-    included (its bounds are emitted `to` before `from`, but each bound's instructions carry the bound's own
-    locations and `OpSlice` carries the slice's) and the seven loop builtins (whose loop instructions all carry
-    the builtin's location and fail only when the builtin's own evaluation does).
-    Hypotheses: those of `C01.run_conforms_partial` (`AliasFree`/`FloatsIn`, `FitsU16`, `EnvOK`, `Good`), and no
-    `AsInt64`/`AsFloat64` epilogue (its `OpCast` carries the location 0:0 of no node). -/
-theorem runtime_error_innermost_partial (cfg : CompCfg) (n : Node) (cp : Compiled) (c : Cfg) (F : Val → Prop)
-    (hc : compileProgram cfg n = .ok cp) (hcast : cfg.cast = none) (hfit : FitsU16 cp.code)
+/-- the simulation's failure direction, for any blame relation `bl` that the located evaluation of the whole
+    tree satisfies (`BAt`): the class of a failing run and the location it reports are blamed.  C01's simulation
+    hands the obligation down evaluation by evaluation (`Sim`), every failing instruction discharges it for its
+    own location (`ReachErr`), and the failing step of a run is unique. -/
+theorem failing_step_blamed (bl : ErrClass → Loc → Prop) (cfg : CompCfg) (n : Node) (cp : Compiled) (c : Cfg)
+    (F : Val → Prop) (hc : compileProgram cfg n = .ok cp) (hcast : cfg.cast = none) (hfit : FitsU16 cp.code)
     (hF : AliasFree F) (hfl : FloatsIn F n) (henv : EnvOK c cfg) (hg : Good (SmallColl c) n)
+    (hB : BAt bl (Spec.evalLoc (specOf c) [] n) {})
     (fuel : Nat) (e : ErrClass) (s' : VM) (hrun : run c (progOf cp) fuel = (.error e, s')) (he : e ≠ .fuel) :
-    ∃ m ∈ Node.preorder n, m.loc = report (locTable 0 cp.code) s'.pp ∧
-      ∃ ctx σ, (Spec.eval (specOf c) ctx m σ).1 = .error e := by
-  have hR := program_runs (InnerBlame c n) hc hF hfl hg hfit henv (loopCase_holds c _)
-    (allBlame_inner c (lprogOf cp (InnerBlame c n)) n rfl) (fun t _ _ ht => by rw [hcast] at ht; cases ht)
+    bl e (report (locTable 0 cp.code) s'.pp) := by
+  have hR := program_runs bl hc hF hfl hg hfit henv (loopCase_holds c _) hB
+    (fun t _ _ ht => by rw [hcast] at ht; cases ht)
   unfold run runOn at hrun
   rw [prologue_fresh] at hrun
   obtain ⟨s1, hst, hlt, hstep⟩ := loop_error fuel _ e s' hrun he
@@ -290,11 +293,11 @@ theorem runtime_error_innermost_partial (cfg : CompCfg) (n : Node) (cp : Compile
   rw [hsr] at hR
   cases r with
   | ok v =>
-    obtain ⟨t, ht, htt⟩ : Reach c (lprogOf cp (InnerBlame c n)) _ _ := by simpa using hR
+    obtain ⟨t, ht, htt⟩ : Reach c (lprogOf cp bl) _ _ := by simpa using hR
     have hip : t.ip = lsize cp.code := congrArg VM.ip htt
     exact (steps_fail_not_halted hst hlt hstep ht (by rw [hip, hsz]; exact Nat.le_refl _)).elim
   | error e' =>
-    obtain ⟨s1', s2', hst', hlt', hstep', _, i, r, hat, hbl⟩ : ReachErr c (lprogOf cp (InnerBlame c n)) _ e' σ' := by
+    obtain ⟨s1', s2', hst', hlt', hstep', _, i, r, hat, hbl⟩ : ReachErr c (lprogOf cp bl) _ e' σ' := by
       simpa using hR
     have h1 : s1 = s1' := steps_fail_unique hst hstep hst' hstep'
     subst h1
@@ -303,7 +306,6 @@ theorem runtime_error_innermost_partial (cfg : CompCfg) (n : Node) (cp : Compile
       simp only [Except.error.injEq, Prod.mk.injEq] at this
       exact this.1
     subst h2
-    obtain ⟨m, hm, hml, hctx⟩ := hbl
     obtain ⟨pre, post, hfull, hpre, _⟩ := hat
     have hfull' : cp.code = pre ++ i :: (r ++ post) := by
       have : cp.code = pre ++ (i :: r) ++ post := hfull
@@ -312,8 +314,48 @@ theorem runtime_error_innermost_partial (cfg : CompCfg) (n : Node) (cp : Compile
       apply report_locTable
       rw [hfull', ← hpre]
       exact locTable_at
-    refine ⟨m, hm, ?_, hctx⟩
-    rw [failing_step_pp hstep, hloc, hml]
+    rw [failing_step_pp hstep, hloc]
+    exact hbl
+
+open ExprModel.Refine in
+/-- **`runtime_error_location_exact_partial`: errors are located at the offending occurrence.**
+    Whenever a run of a compiled program fails with class `e` (anything but the model's `fuel`), the location the
+    VM reports — `Locations[pp]` of the failing step — is exactly the location at which the language definition
+    raises the failure: `Spec.runLoc` of the whole tree fails with `(e, that location)`.  `runLoc`/`evalLoc` is the
+    reference evaluator instrumented with the location of the node whose own rule fails after the sub-evaluations
+    it needed succeeded (`Spec/EvalLoc.lean` lists what raises where; `evalLoc_dropLoc`: forgetting the locations
+    gives `Spec.eval` back).  It holds for every construct, the slice included (its bounds are evaluated `to` before
+    `from`, the listed finding, mirrored by `specOf`) and the seven loop builtins.
+    Hypotheses: those of `C01.run_conforms_partial` (`AliasFree`/`FloatsIn`, `FitsU16`, `EnvOK`, `Good`), and no
+    `AsInt64`/`AsFloat64` epilogue (its `OpCast` carries the location 0:0 of no node). -/
+theorem runtime_error_location_exact_partial (cfg : CompCfg) (n : Node) (cp : Compiled) (c : Cfg) (F : Val → Prop)
+    (hc : compileProgram cfg n = .ok cp) (hcast : cfg.cast = none) (hfit : FitsU16 cp.code)
+    (hF : AliasFree F) (hfl : FloatsIn F n) (henv : EnvOK c cfg) (hg : Good (SmallColl c) n)
+    (fuel : Nat) (e : ErrClass) (s' : VM) (hrun : run c (progOf cp) fuel = (.error e, s')) (he : e ≠ .fuel) :
+    (Spec.runLoc (specOf c) cfg.cast n).1 = .error (e, report (locTable 0 cp.code) s'.pp) := by
+  have h := failing_step_blamed (ExactBlame c n) cfg n cp c F hc hcast hfit hF hfl henv hg (exactBlame_root c n)
+    fuel e s' hrun he
+  unfold ExactBlame at h
+  unfold Spec.runLoc
+  rw [hcast]
+  cases hev : Spec.evalLoc (specOf c) [] n {} with
+  | mk r σ =>
+    rw [hev] at h
+    cases r with
+    | ok v => cases h
+    | error x => exact h
+
+open ExprModel.Refine in
+/-- the weaker reading (see `runtime_error_blames_failing_node_goal`), a corollary: the node that raises the
+    failure is a node of the tree, and its own evaluation fails with the class -/
+theorem runtime_error_blames_failing_node_partial (cfg : CompCfg) (n : Node) (cp : Compiled) (c : Cfg) (F : Val → Prop)
+    (hc : compileProgram cfg n = .ok cp) (hcast : cfg.cast = none) (hfit : FitsU16 cp.code)
+    (hF : AliasFree F) (hfl : FloatsIn F n) (henv : EnvOK c cfg) (hg : Good (SmallColl c) n)
+    (fuel : Nat) (e : ErrClass) (s' : VM) (hrun : run c (progOf cp) fuel = (.error e, s')) (he : e ≠ .fuel) :
+    ∃ m ∈ Node.preorder n, m.loc = report (locTable 0 cp.code) s'.pp ∧
+      ∃ ctx σ, (Spec.eval (specOf c) ctx m σ).1 = .error e :=
+  failing_step_blamed (InnerBlame c n) cfg n cp c F hc hcast hfit hF hfl henv hg (innerBlame_root c n)
+    fuel e s' hrun he
 
 /-- non-vacuity, and the rule at work on a nested failure: in `[1, 2][I] + 1` with `I = 5` the index
     fails, and the location reported is that of the index node (1:6), not of the `+` (1:10) -/
@@ -345,11 +387,32 @@ def innermostCfg : Cfg :=
   { world := { call := fun _ _ => .ok .nil, regexMatch := fun _ _ => none, pow := fun a _ => a },
     env := .map [("I", .int .int 5)], budget := 1000, defects := Defects.none }
 
+/-- the language definition locates the failure of `[1, 2][I] + 1` (`I = 5`) at the index node, 1:6 … -/
+theorem innermost_runLoc :
+    (Spec.runLoc (Refine.specOf innermostCfg) none innermostTree).1 = .error (.index, ⟨1, 6⟩) := by
+  have h1 : (match (Spec.runLoc (Refine.specOf innermostCfg) none innermostTree).1 with
+      | .error (.index, l) => l == (⟨1, 6⟩ : Loc) | _ => false) = true := by decide
+  revert h1
+  cases (Spec.runLoc (Refine.specOf innermostCfg) none innermostTree).1 with
+  | ok v => intro h; cases h
+  | error x =>
+    obtain ⟨e, l⟩ := x
+    cases e <;> intro h <;> first | cases h | skip
+    have : l = ⟨1, 6⟩ := by simpa using h
+    rw [this]
+
+/-- … and nowhere else: the statement with the location of the enclosing `+` (1:10) — which the weaker
+    "some node whose evaluation fails" reading accepts, the `+` fails too — is false -/
+example : ¬ (Spec.runLoc (Refine.specOf innermostCfg) none innermostTree).1 = .error (.index, ⟨1, 10⟩) := by
+  rw [innermost_runLoc]
+  intro h
+  exact absurd (Prod.mk.inj (Except.error.inj h)).2 (by decide)
+
 open ExprModel.Refine in
 set_option maxRecDepth 20000 in
-example : ∃ m ∈ Node.preorder innermostTree,
-    m.loc = report (locTable 0 innermostCompiled.code) (run innermostCfg (progOf innermostCompiled) 50).2.pp ∧
-    ∃ ctx σ, (Spec.eval (specOf innermostCfg) ctx m σ).1 = .error .index := by
+/-- the hypotheses of `runtime_error_location_exact_partial` hold of that failing program, and what the theorem
+    gives is the equality of the two locations: the VM reports 1:6 -/
+example : report (locTable 0 innermostCompiled.code) (run innermostCfg (progOf innermostCompiled) 50).2.pp = ⟨1, 6⟩ := by
   have hc : compileProgram {} innermostTree = .ok innermostCompiled := by unfold innermostCompiled; rfl
   have hfit : FitsU16 innermostCompiled.code := by decide
   have hfl : FloatsIn (fun _ => False) innermostTree := by
@@ -365,18 +428,29 @@ example : ∃ m ∈ Node.preorder innermostTree,
       | ok v => intro h; cases h
       | error e => cases e <;> intro h <;> first | rfl | cases h
     rw [← this]
-  exact runtime_error_innermost_partial {} innermostTree innermostCompiled innermostCfg (fun _ => False) hc rfl hfit
-    (fun _ _ h => h.elim) hfl (fun h => by cases h) hg 50 .index _ hrun (by decide)
+  have h := runtime_error_location_exact_partial {} innermostTree innermostCompiled innermostCfg (fun _ => False) hc rfl
+    hfit (fun _ _ h => h.elim) hfl (fun h => by cases h) hg 50 .index _ hrun (by decide)
+  have h' : (Spec.runLoc (specOf innermostCfg) none innermostTree).1 = _ := h
+  rw [innermost_runLoc] at h'
+  exact ((Prod.mk.inj (Except.error.inj h')).2).symm
 
 /-- the same with the computable check of the float constants (`C01.run_conforms_checked`'s hypotheses) -/
-theorem runtime_error_innermost_checked (cfg : CompCfg) (n : Node) (cp : Compiled) (c : Cfg)
+theorem runtime_error_location_exact_checked (cfg : CompCfg) (n : Node) (cp : Compiled) (c : Cfg)
+    (hc : compileProgram cfg n = .ok cp) (hcast : cfg.cast = none) (hfit : Refine.FitsU16 cp.code)
+    (hfl : Refine.floatsOK n = true) (henv : Refine.EnvOK c cfg) (hg : Refine.Good (Refine.SmallColl c) n)
+    (fuel : Nat) (e : ErrClass) (s' : VM) (hrun : run c (Refine.progOf cp) fuel = (.error e, s')) (he : e ≠ .fuel) :
+    (Spec.runLoc (Refine.specOf c) cfg.cast n).1 = .error (e, report (locTable 0 cp.code) s'.pp) :=
+  runtime_error_location_exact_partial cfg n cp c _ hc hcast hfit (Refine.floatsOK_spec hfl).1 (Refine.floatsOK_spec hfl).2
+    henv hg fuel e s' hrun he
+
+theorem runtime_error_blames_failing_node_checked (cfg : CompCfg) (n : Node) (cp : Compiled) (c : Cfg)
     (hc : compileProgram cfg n = .ok cp) (hcast : cfg.cast = none) (hfit : Refine.FitsU16 cp.code)
     (hfl : Refine.floatsOK n = true) (henv : Refine.EnvOK c cfg) (hg : Refine.Good (Refine.SmallColl c) n)
     (fuel : Nat) (e : ErrClass) (s' : VM) (hrun : run c (Refine.progOf cp) fuel = (.error e, s')) (he : e ≠ .fuel) :
     ∃ m ∈ Node.preorder n, m.loc = report (locTable 0 cp.code) s'.pp ∧
       ∃ ctx σ, (Spec.eval (Refine.specOf c) ctx m σ).1 = .error e :=
-  runtime_error_innermost_partial cfg n cp c _ hc hcast hfit (Refine.floatsOK_spec hfl).1 (Refine.floatsOK_spec hfl).2
-    henv hg fuel e s' hrun he
+  runtime_error_blames_failing_node_partial cfg n cp c _ hc hcast hfit (Refine.floatsOK_spec hfl).1
+    (Refine.floatsOK_spec hfl).2 henv hg fuel e s' hrun he
 
 /-! #### why the hypotheses: the goal without them fails on an ill-formed tree
 
@@ -394,7 +468,7 @@ def illFormedCompiled : Compiled :=
 
 open ExprModel.Refine ExprModel.Spec in
 set_option maxRecDepth 20000 in
-theorem runtime_error_innermost_goal_witness : ¬ runtime_error_innermost_goal := by
+theorem runtime_error_blames_failing_node_goal_witness : ¬ runtime_error_blames_failing_node_goal := by
   intro h
   have hc : compileProgram {} illFormedTree = .ok illFormedCompiled := by unfold illFormedCompiled; rfl
   have hfit : FitsU16 illFormedCompiled.code := by decide
@@ -429,5 +503,29 @@ theorem runtime_error_innermost_goal_witness : ¬ runtime_error_innermost_goal :
   · exact absurd hml (by decide)
   · exact absurd hml (by decide)
   · exact absurd hml (by decide)
+
+open ExprModel.Refine ExprModel.Spec in
+set_option maxRecDepth 20000 in
+/-- the exact statement fails on that tree as well: the run reports a type error at the `-` (1:0), the language
+    definition rejects the pair (`badop` at 1:2) -/
+theorem runtime_error_location_exact_goal_witness : ¬ runtime_error_location_exact_goal := by
+  intro h
+  have hc : compileProgram {} illFormedTree = .ok illFormedCompiled := by unfold illFormedCompiled; rfl
+  have hfit : FitsU16 illFormedCompiled.code := by decide
+  have h1 : (match (run innermostCfg (progOf illFormedCompiled) 50).1 with
+      | .error .type_ => true | _ => false) = true := by decide
+  have hres : (run innermostCfg (progOf illFormedCompiled) 50).1 = .error .type_ := by
+    revert h1
+    cases (run innermostCfg (progOf illFormedCompiled) 50).1 with
+    | ok v => intro h; cases h
+    | error e => cases e <;> intro h <;> first | rfl | cases h
+  have hrun : run innermostCfg (progOf illFormedCompiled) 50 =
+      (.error .type_, (run innermostCfg (progOf illFormedCompiled) 50).2) := by rw [← hres]
+  have hx := h {} illFormedTree illFormedCompiled innermostCfg hc rfl hfit 50 .type_ _ hrun (by decide)
+  have h2 : (match (Spec.runLoc (specOf innermostCfg) none illFormedTree).1 with
+      | .error (.badop, _) => true | _ => false) = true := by decide
+  have hx' : (Spec.runLoc (specOf innermostCfg) none illFormedTree).1 = _ := hx
+  rw [hx'] at h2
+  cases h2
 
 end ExprModel.C13
